@@ -115,8 +115,11 @@ def _svd_calls(pm, fn: FuncInfo):
             if not ts or ts[0].fn is None:
                 raise AnalysisError(f"{fn.qualname}: cannot resolve self._svd")
             b = bind_args(ts[0].fn, c)
-            f = b.get("func")
-            kw = b.get("kwargs")
+            # the solver callable and its keyword dict are the last two parameters of the private wrapper
+            # (whatever they are called)
+            pnames = [a.arg for a in ts[0].fn.node.args.args if a.arg != "self"]
+            f = b.get(pnames[-2]) if len(pnames) >= 2 else None
+            kw = b.get(pnames[-1]) if len(pnames) >= 2 else None
             if f is None or kw is None:
                 raise AnalysisError(f"{fn.qualname}: self._svd call without func/kwargs")
             out.append((c, _ext_name(pm, fn, f) or norm(f), kw))
@@ -298,14 +301,19 @@ def _linear(e: ast.expr, sign=1, out=None):
 
 def _threshold_facts(chk, fn: FuncInfo):
     ff = FuncFacts.of(fn)
+    from .common import inline_locals
     cand = None
+    lin = {}
     for st in ff.statements():
-        if isinstance(st, ast.Assign) and any(isinstance(n, ast.Compare) for n in ast.walk(st.value)) and "sum" in norm(st.value):
-            cand = st
-            break
+        if not isinstance(st, ast.Assign):
+            continue
+        v = inline_locals(ff, st.value)
+        if any(isinstance(n, ast.Compare) for n in ast.walk(v)) and "sum" in norm(v):
+            l = _linear(v)
+            if cand is None or len(l) > len(lin):
+                cand, lin = st, l
     if cand is None:
         raise AnalysisError(f"{fn.qualname}: threshold count assignment not found (anchor vanished)")
-    lin = _linear(cand.value)
     terms = {"pre": 0, "count": 0, "const": 0, "other": []}
     cmp_ops = []
     for k, c in lin.items():
@@ -321,18 +329,14 @@ def _threshold_facts(chk, fn: FuncInfo):
             terms["pre"] += c
         else:
             terms["other"].append(k)
-    # N-1 and ddof=1
+    # N-1 and ddof=1: the compared quantity is s**2 / (n_samples - 1) / total variance
     denom_ok = None
-    for st in ff.statements():
-        if isinstance(st, ast.Assign) and isinstance(st.targets[0], ast.Name) and st.targets[0].id == "explained_variance":
-            txt = norm(st.value)
-            ps = ff.paths(st.value, spine_only=False)
-            nm1 = any(
-                p.atom.kind == "const" and p.atom.name == "1" and p.has_op("binop", "Sub") and p.has_op("binop", "Div")
-                for p in ps
-            )
-            shape0 = any(p.has_op("attr", "shape") and p.has_op("binop", "Sub") for p in ps)
-            denom_ok = nm1 and shape0
+    cmp_nodes = [n for st in ff.statements() if isinstance(st, ast.Assign) for n in ast.walk(st.value) if isinstance(n, ast.Compare) and "n_modes" in norm(n.comparators[0])]
+    for cn in cmp_nodes:
+        ps = ff.paths(cn.left, spine_only=False)
+        nm1 = any(p.atom.kind == "const" and p.atom.name == "1" and p.has_op("binop", "Sub") and p.has_op("binop", "Div") for p in ps)
+        shape0 = any(p.has_op("attr", "shape") and p.has_op("binop", "Sub") for p in ps)
+        denom_ok = nm1 and shape0
     ddof = None
     for c in ff.calls():
         if isinstance(c.func, ast.Attribute) and c.func.attr == "var":
@@ -527,8 +531,16 @@ def _exhaustive(chk):
             for case in m.cases:
                 p = case.pattern
                 if isinstance(p, ast.MatchValue) and const_str(p.value) == "auto":
-                    only_assign = all(isinstance(s, (ast.Assign, ast.AnnAssign)) for s in case.body)
+                    only_assign = all(isinstance(s, (ast.Assign, ast.AnnAssign, ast.Return)) for s in case.body)
                     targets = {norm(t) for s in case.body if isinstance(s, ast.Assign) for t in s.targets}
-                    chk.check(only_assign and "use_exact" in targets, "EXH.solver.auto", fn, case.body[0],
+                    # the decision is either assigned to the flag every case assigns, or returned from a helper every
+                    # case of which returns / raises
+                    others = [c2 for c2 in m.cases if c2 is not case and not (isinstance(c2.pattern, ast.MatchAs) and c2.pattern.pattern is None)]
+                    if isinstance(case.body[-1], ast.Return):
+                        decided = all(isinstance(c2.body[-1], ast.Return) for c2 in others)
+                    else:
+                        common = set.intersection(*[{norm(t) for s in c2.body if isinstance(s, ast.Assign) for t in s.targets} for c2 in others]) if others else set()
+                        decided = bool(targets & common)
+                    chk.check(only_assign and decided, "EXH.solver.auto", fn, case.body[0],
                               construct=f"match {subj}: case 'auto'",
                               why="'auto' must only choose between the exact and the randomised path (assign use_exact)")
